@@ -878,11 +878,17 @@ fn is_plain_jwk(v: &Value) -> bool {
 
 fn check_jwk(s: &str, obs: &mut Obs) -> CheckResult {
   let json = json_string(s);
-  let routes: [(&str, Attempt<DIDJwk>); 4] = [
+  let routes: [(&str, Attempt<DIDJwk>); 6] = [
     ("DIDJwk::parse", attempt(|| DIDJwk::parse(s))),
     ("DIDJwk::from_str", attempt(|| DIDJwk::from_str(s))),
     ("DIDJwk::try_from(&str)", attempt(|| DIDJwk::try_from(s))),
     ("DIDJwk::from_json", attempt(|| DIDJwk::from_json(&json))),
+    ("DIDJwk::from_json_value", attempt(|| DIDJwk::from_json_value(Value::String(s.to_string())))),
+    // a CoreDID that was obtained independently, converted
+    (
+      "DIDJwk::try_from(CoreDID)",
+      attempt(|| CoreDID::parse(s).map_err(|e| e.to_string()).and_then(|d| DIDJwk::try_from(d).map_err(|e| e.to_string()))),
+    ),
   ];
   // Reference reading of the string: a plain DID of method "jwk" whose id is base64url of a JSON object with "kty".
   let reference: Option<Value> = syn::parse_did(s)
